@@ -202,8 +202,13 @@ static void check_single(vf::Ctx& ctx, const Desc& d, const Mat& H, const Shift&
         e = fnorm(MatLD(Q * toLD(Rt) - S));
         if (!within(ctx, std::string(d.cls) + "/QR=H-sI", e, allow)) bad("QR!=H-sI", e, allow);
     }
-    // Q'HQ output
+    // Q'HQ output. The destination is an output argument: what it held before must not matter - empty, or already n x n and full of other numbers
+    // (a workspace shared between decompositions), or of another size
     Mat Gt;
+    const int pre = (int) ((n + ctx.idx) % 3);
+    if (pre == 1) Gt = Mat::Constant(n, n, T(7));
+    else if (pre == 2) Gt = Mat::Constant(n + 1, n + 2, T(7));
+    ctx.count(pre == 0 ? "QtHQ_destination/empty" : pre == 1 ? "QtHQ_destination/same-size-with-other-content" : "QtHQ_destination/other-size");
     qr.matrix_QtHQ(Gt);
     bool shape = (Gt.rows() == n && Gt.cols() == n);
     for (int j = 0; shape && j < n; j++)
@@ -278,6 +283,8 @@ static void check_single(vf::Ctx& ctx, const Desc& d, const Mat& H, const Shift&
     {
         // complex overload of matrix_QtHQ equals the real one
         Eigen::Matrix<std::complex<T>, Eigen::Dynamic, Eigen::Dynamic> Gc;
+        if (pre == 1) Gc.setConstant(n, n, std::complex<T>(T(7), T(7)));
+        else if (pre == 0) Gc.setConstant(n + 2, n + 1, std::complex<T>(T(7), T(7)));
         static_cast<const Spectra::TridiagQR<T>&>(static_cast<const Spectra::UpperHessenbergQR<T>&>(qr)).matrix_QtHQ(Gc);
         bool same = (Gc.rows() == n && Gc.cols() == n);
         for (int j = 0; same && j < n; j++)
@@ -304,6 +311,8 @@ static void check_double(vf::Ctx& ctx, const Desc& d, const Mat& H, const Shift&
     LD e = orth_err(Q);
     if (!within(ctx, "DoubleShiftQR/orthogonality", e, C * n * u)) bad("Q-not-orthogonal", e, C * n * u);
     Mat Gt(n, n);
+    if ((n + ctx.idx) % 3 == 1) Gt.setConstant(T(7));
+    else if ((n + ctx.idx) % 3 == 2) Gt = Mat::Constant(n + 1, n + 2, T(7));
     qr.matrix_QtHQ(Gt);
     // the statement promises the similarity to n*eps*(||H|| + |s|); the double-shift step itself is independent of the shifts'
     // magnitude (only the direction of the first reflector depends on them)
